@@ -184,9 +184,31 @@ def date_cases(draw):
 
 
 @st.composite
+def _lookalike_epochs(draw):
+    """10-digit epoch numbers whose digits also spell something else: YYYYMMDDHH, DDMMYYYYHH / MMDDYYYYHH, YYMMDDHHMM, repeated or
+    round digits.  They are epoch numbers all the same (the property's domain is every n in [10^9, 10^10))."""
+    k = draw(st.integers(0, 4))
+    y, m, d, h = draw(st.integers(1900, 2099)), draw(st.integers(1, 12)), draw(st.integers(1, 28)), draw(st.integers(0, 23))
+    if k == 0:
+        t = "%04d%02d%02d%02d" % (y, m, d, h)
+    elif k == 1:
+        t = "%02d%02d%04d%02d" % (d, m, y, h) if d >= 10 else "%02d%02d%04d%02d" % (m + 10 if m < 10 else m, d, y, h)
+    elif k == 2:
+        t = "%02d%02d%02d%02d%02d" % (max(10, y % 100), m, d, h, draw(st.integers(0, 59)))
+    elif k == 3:
+        t = draw(st.sampled_from(["1111111111", "1234567890", "2000000000", "1900010100", "2099123123", "2030010112", "1999123100",
+                                  "2020202020", "1212121212", "3000000000", "9999999999", "1000000001"]))
+    else:
+        t = "%04d%02d%02d%02d" % (draw(st.sampled_from([1970, 1999, 2000, 2024, 2038, 2099])), m, d, h)
+    n = int(t)
+    return n if 10 ** 9 <= n < 10 ** 10 else 10 ** 9 + n % (9 * 10 ** 9)
+
+
+@st.composite
 def ts_cases(draw):
     n = draw(st.one_of(st.integers(10 ** 9, 10 ** 10 - 1), st.integers(10 ** 9, 2 * 10 ** 9),
-                       st.sampled_from([10 ** 9, 10 ** 10 - 1, 2 ** 31 - 1, 2 ** 31, 2 ** 32 - 1, 2 ** 32])))
+                       st.sampled_from([10 ** 9, 10 ** 10 - 1, 2 ** 31 - 1, 2 ** 31, 2 ** 32 - 1, 2 ** 32]),
+                       _lookalike_epochs()))
     k = draw(st.sampled_from([0, 3, 6]))
     suf = ""
     if k:
